@@ -6,6 +6,7 @@ import (
 	"go/token"
 	"go/types"
 	"math/big"
+	"strings"
 
 	"golang.org/x/tools/go/ssa"
 )
@@ -694,6 +695,9 @@ func (in *Interp) nilBit(v Val) Bit {
 	case *MuxV:
 		return bmux(p.C, in.nilBit(p.T), in.nilBit(p.F))
 	case *OpaqueV:
+		if strings.HasPrefix(p.Why, "errors.New@") || strings.HasPrefix(p.Why, "fmt.Errorf@") {
+			return U.B0 // these constructors never return nil
+		}
 		return U.srcBit(U.source("nil", "nil("+p.Why+")", 1), 0)
 	}
 	return U.BTop
